@@ -519,10 +519,13 @@ def MStmt.mentions (f : String) : MStmt → Bool
   | .int _ _ _ g | .quad _ _ _ g | .u8 _ g | .bytes _ g | .arr _ g | .sub _ g _ | .setFmt g _ => g == f
   | .assignLen g h _ => g == f || h == f
   | .zeros _ _ => false
+  | .forInt _ _ _ g => g == f
   | _ => true
 
 /-- `layoutM`, except that literal zero bytes in the *data* block (`append(raw, 0x00, 0x00)`: the terminator of a
-    null-terminated string, NegotiateResponse) are passed over: they belong to no field and move no parameter slot.
+    null-terminated string, NegotiateResponse) are passed over: they belong to no field and move no parameter slot;
+    and a `range` loop over an integer array is one slot of variable width (`slotAt` stops there: the fixed-width
+    fields in front of it keep their ranges — OpenAndxRequest, TransactionRequest, the `Reserved` arrays).
     Only `slotRange` reads the layout through this function; `Mirror`, `Conforms` and `Spec.Cifs.encode` keep
     `layoutM`, for which such a program is outside the straight-line fragment. -/
 def layoutZ : List MStmt → Option (List Slot)
@@ -536,6 +539,7 @@ def layoutZ : List MStmt → Option (List Slot)
   | .setFmt _ _ :: r => layoutZ r
   | .assignLen _ _ _ :: r => layoutZ r
   | .zeros .D _ :: r => layoutZ r
+  | .forInt b w e f :: r => (layoutZ r).map (.ints b w e f none :: ·)
   | _ :: _ => none
 
 /-- offset and width of the first fixed-width slot of field `f` in a block's slot list, provided
